@@ -1,2 +1,154 @@
-/-! Line driver for C20 (stub; replaced when the model is written). -/
-def main : IO Unit := pure ()
+import MpVerif.C20.ModelGraph
+import MpVerif.C20.ModelExport
+/-! Line driver for C20.  One op per line, one answer line per op; no logic of its own.
+
+  W <op>*            writer machine: ops `k:<hex>` `e` `s:<hex>` `t:<hex>` `c`  ->  hex of the text written
+  P <hex>            parse a text -> `some <canonical form>` | `none`
+  reset              forget graph lines and delivered log
+  L <hex>            one line of the export (raw bytes, hex) -> `rec <tag>` | `nojson` | `noobj` | `unknown` | `badutf8`
+  N a b c d          NL sizes: vars objs algebraic-cons logical-cons
+  V a b              delivered: vars objs
+  C <hexty> g <hexname>   one delivered constraint (short type name, group, name)
+  check              -> `ok` | `fail <reasons>`
+  X <op>*            link-export protocol: ops `a:<c|o|m>:<src>:<sb>:<se>:<dst>:<db>:<de>` (AddEntry) and `f` (finish)
+                     -> `<hex of the exported text> <final entries by registered range> all=<0|1> late=<0|1>`
+-/
+open MpVerif.C20
+
+def hexDig? (c : Char) : Option Nat := hexVal c
+
+def unhexBytes (s : List Char) : Option ByteArray :=
+  let rec go : List Char → ByteArray → Option ByteArray
+    | [], acc => some acc
+    | a :: b :: r, acc =>
+      match hexDig? a, hexDig? b with
+      | some x, some y => go r (acc.push (UInt8.ofNat (x * 16 + y)))
+      | _, _ => none
+    | _, _ => none
+  go s ByteArray.empty
+
+def unhexStr (s : String) : Option (Option Str) :=
+  if s == "-" then some (some []) else
+  match unhexBytes s.toList with
+  | none => none
+  | some b =>
+    match String.fromUTF8? b with
+    | some t => some (some t.toList)
+    | none => some none
+
+def hexOfStr (s : Str) : String :=
+  let b := (String.ofList s).toUTF8
+  let hd (n : Nat) : Char := if n < 10 then Char.ofNat (48 + n) else Char.ofNat (87 + n)
+  if b.size == 0 then "-" else
+  String.ofList (b.toList.flatMap (fun x => [hd (x.toNat / 16), hd (x.toNat % 16)]))
+
+def parseOp (t : String) : Option Op :=
+  if t == "e" then some .elem
+  else if t == "c" then some .close
+  else
+    match t.splitOn ":" with
+    | [k, h] =>
+      match unhexStr h with
+      | some (some s) =>
+        if k == "k" then some (.key s) else if k == "s" then some (.scalar s)
+        else if k == "t" then some (.string s) else none
+      | _ => none
+    | _ => none
+
+def parseXOp (t : String) : Option XOp :=
+  if t == "f" then some .finish else
+  match t.splitOn ":" with
+  | ["a", k, sn, sb, se, dn, db, de] =>
+    let kind : Option LKind := if k == "c" then some .copy else if k == "o" then some .one2many
+      else if k == "m" then some .many2one else none
+    match kind, sb.toNat?, se.toNat?, db.toNat?, de.toNat? with
+    | some kd, some sb, some se, some db, some de => some (.add kd (⟨sn.toList, sb, se⟩, ⟨dn.toList, db, de⟩))
+    | _, _, _, _, _ => none
+  | _ => none
+
+def kindChar : LKind → String
+  | .copy => "c" | .one2many => "o" | .many2one => "m"
+
+def finalDump (s : PState) : String :=
+  let rec go (i : Nat) : List LRange → String
+    | [] => ""
+    | r :: rs =>
+      ((List.range' r.beg (r.end_ - r.beg)).foldl (fun acc j =>
+        let e := extentOf s r.link j
+        acc ++ s!"{i},{kindChar r.link},{j},{String.ofList e.1.node},{e.1.beg},{e.1.end_},{String.ofList e.2.node},{e.2.beg},{e.2.end_};") "")
+      ++ go (i + 1) rs
+  let d := go 0 s.brl
+  if d == "" then "-" else d
+
+structure DState where
+  lines : List (Option Rec) := []      -- reversed
+  bad : Bool := false
+  d : Delivered := ⟨0, 0, 0, 0, 0, 0, []⟩
+
+partial def loop (h : IO.FS.Stream) (out : IO.FS.Stream) (st : DState) : IO Unit := do
+  let line ← h.getLine
+  if line.isEmpty then return ()
+  let toks := (line.trimAscii.toString.splitOn " ").filter (· != "")
+  match toks with
+  | "W" :: ops =>
+    match ops.mapM parseOp with
+    | some os => out.putStrLn (hexOfStr (run WState.init os).out); loop h out st
+    | none => out.putStrLn "bad-op"; loop h out st
+  | ["P", hx] =>
+    match unhexStr hx with
+    | some (some s) =>
+      match parse s with
+      | some v => out.putStrLn ("some " ++ String.ofList (canon v))
+      | none => out.putStrLn "none"
+      loop h out st
+    | some none => out.putStrLn "badutf8"; loop h out st
+    | none => out.putStrLn "bad-op"; loop h out st
+  | "X" :: ops =>
+    match ops.mapM parseXOp with
+    | some os =>
+      let s := xrun {} os
+      out.putStrLn (hexOfStr (exportText s) ++ " " ++ finalDump s ++ " all=" ++ (if allEntriesExported s then "1" else "0")
+                    ++ " late=" ++ (if s.late then "1" else "0"))
+      loop h out st
+    | none => out.putStrLn "bad-op"; loop h out st
+  | ["reset"] => out.putStrLn "ok"; loop h out {}
+  | ["L", hx] =>
+    match unhexStr hx with
+    | some (some s) =>
+      match parse s with
+      | none => out.putStrLn "nojson"; loop h out { st with bad := true }
+      | some (.obj ms) =>
+        match classify ms with
+        | some r => out.putStrLn ("rec " ++ recTag r); loop h out { st with lines := some r :: st.lines }
+        | none => out.putStrLn "unknown"; loop h out { st with bad := true }
+      | some _ => out.putStrLn "noobj"; loop h out { st with bad := true }
+    | some none => out.putStrLn "badutf8"; loop h out { st with bad := true }
+    | none => out.putStrLn "bad-op"; loop h out st
+  | ["N", a, b, c, d] =>
+    match a.toNat?, b.toNat?, c.toNat?, d.toNat? with
+    | some a, some b, some c, some d =>
+      out.putStrLn "ok"
+      loop h out { st with d := { st.d with nlVars := a, nlObjs := b, nlAlgCons := c, nlLogCons := d } }
+    | _, _, _, _ => out.putStrLn "bad-op"; loop h out st
+  | ["V", a, b] =>
+    match a.toNat?, b.toNat? with
+    | some a, some b => out.putStrLn "ok"; loop h out { st with d := { st.d with nVars := a, nObjs := b } }
+    | _, _ => out.putStrLn "bad-op"; loop h out st
+  | ["C", ty, g, nm] =>
+    match unhexStr ty, g.toNat?, unhexStr nm with
+    | some (some ty), some g, some (some nm) =>
+      out.putStrLn "ok"
+      loop h out { st with d := { st.d with cons := st.d.cons ++ [⟨ty, g, nm⟩] } }
+    | _, _, _ => out.putStrLn "bad-op"; loop h out st
+  | ["check"] =>
+    if st.bad then out.putStrLn "fail line-invalid"
+    else
+      let g := st.lines.reverse.filterMap id
+      if checkGraph g st.d then out.putStrLn "ok"
+      else out.putStrLn ("fail " ++ " ".intercalate (failReasons g st.d))
+    loop h out st
+  | _ => out.putStrLn "bad-op"; loop h out st
+
+def main : IO Unit := do
+  let out ← IO.getStdout
+  loop (← IO.getStdin) out {}
